@@ -194,6 +194,15 @@ impl Alphabet {
             rustc_entry: false,
         }
     }
+    /// the operations that can trigger a resize or an in-place rehash (fault enumeration on large spaces)
+    pub fn rehash() -> Self {
+        let mut a = Alphabet::churn();
+        a.try_insert = true;
+        a.entry = vec![EAct::OrInsert];
+        a.reserve = vec![Res::One, Res::Half];
+        a.shrink_to_fit = true;
+        a
+    }
     /// insert / remove only (C13 churn)
     pub fn churn() -> Self {
         Alphabet {
